@@ -102,7 +102,7 @@ PROPS = {
     "C06": dict(
         level="proof",
         bounded=_mod("c06"),
-        lemmas=["lenGLs", "lenGLsk", "mem.snoc.Int", "mem.nil.Int"],
+        lemmas=["lenGLs", "lenGLsk", "mem.snoc.Int", "mem.nil.Int", "RangeList"],
         trusted=TB,
         assumed=[L1, LSTOP, LREST],
         explanation="Engine P proves consistency and consistency_indices (outer/inner loops, strict and extended exits, arbitrary keys) "
@@ -190,6 +190,7 @@ PROPS = {
     "C16": dict(
         level="other",
         bounded=_mod("c16"),
+        lemmas=["RangeList", "mem.snoc.Str", "mem.nil.Str"],
         trusted=TB,
         assumed=["symbolize_bitvec (string manipulation) denotes the world", LSTOP],
         explanation="Engine P proves SystemZPreOCF._rec_z_rank, z_part2ocf and rank_world with the cache invariant (lazy / forced / "
